@@ -2,7 +2,7 @@
 From Coq Require Import List ZArith Bool Lia.
 From BLB Require Import Gen.Consts.
 From BLB Require Cluster.Model.
-From BLB Require Import C14.Model C14.Witness C14.Proofs C14.Run C14.Late C14.InvFrame C14.InvStore C14.InvVer C14.InvPool C14.InvRound C14.InvTract C14.InvFence C14.InvContent.
+From BLB Require Import C14.Model C14.Witness C14.Proofs C14.Run C14.Late C14.InvFrame C14.InvStore C14.InvVer C14.InvPool C14.InvRound C14.InvTract C14.InvFence C14.InvContent C14.InvPiece C14.TriFull.
 Import ListNotations.
 Open Scope Z_scope.
 
@@ -189,7 +189,7 @@ Example after_move_example :
   existsb wo_late (s_wops (run_state_fx all_fix init_state (firstn 70 w_f14))) = true.
 Proof. vm_compute. repeat split; reflexivity. Qed.
 
-(* [PARTIAL] racing_write_trichotomy for the repaired model, run level, every schedule of setup events (setup writes of positive length) followed by run-phase events, GIVEN the provenance of the packed pieces along the run (src_run: whenever a CommitRSChunk is outstanding, the item it will read from the piece is the write list of a stat'ed source of that tract, open case I2): every acknowledged write of a tract is contained in the packed copy its commit recorded, whether it was acknowledged before or after the commit. Proved without further assumptions inside: every acknowledged write is in the write list of every durable host, a Write answered OK was applied, the source replica keeps the packed content for good because it is fenced *)
+(* [PARTIAL] racing_write_trichotomy for the repaired model, run level, every schedule of setup events (setup writes of positive length) followed by run-phase events, GIVEN the provenance of the packed pieces along the run (src_run: whenever a CommitRSChunk is outstanding, the item it will read from the piece is the write list of a stat'ed source of that tract, = invariant I2, discharged by the next theorem for runs with one round per curator incarnation at a time): every acknowledged write of a tract is contained in the packed copy its commit recorded, whether it was acknowledged before or after the commit. Proved without further assumptions inside: every acknowledged write is in the write list of every durable host, a Write answered OK was applied, the source replica keeps the packed content for good because it is fenced *)
 Theorem racing_write_trichotomy_given_piece_provenance_partial :
   forall fx setup evs, fx6 fx = true -> fx14 fx = true ->
     forallb ev_setup2 setup = true -> forallb ev_run evs = true ->
@@ -197,3 +197,31 @@ Theorem racing_write_trichotomy_given_piece_provenance_partial :
     tri_ok (run_state_fx fx init_state (setup ++ evs)) = true.
 Proof. exact tri_given_sources. Qed.
 Print Assumptions racing_write_trichotomy_given_piece_provenance_partial.
+
+(* [FULL] racing_write_trichotomy (trichotomy_if_commit_checks_version_and_sources_are_statted) for the repaired model, run level: for every schedule of setup events (setup writes of positive length) followed by run-phase events in which a round is started (event 80) only when no round of the current curator incarnation is still present (gens_run, carved out because the model lets PackTracts and RSEncode find their round through the incarnation), every acknowledged write of a tract that started before the commit of that tract is contained in the packed copy the commit recorded. No assumption on message order, losses, duplicates, restarts, leader changes or the number of clients *)
+Theorem racing_write_trichotomy :
+  forall fx setup evs, fx6 fx = true -> fx13 fx = true -> fx14 fx = true ->
+    forallb ev_setup2 setup = true -> forallb ev_run evs = true ->
+    gens_run fx (run_state_fx fx init_state setup) evs = true ->
+    tri_ok (run_state_fx fx init_state (setup ++ evs)) = true.
+Proof. exact trichotomy_if_commit_checks_version_and_sources_are_statted. Qed.
+Print Assumptions racing_write_trichotomy.
+
+(* [FULL] invariant I2 for the repaired model over the same schedules: whenever a CommitRSChunk is outstanding, before and after any single execution, the item it will read from each data piece is the write list of a stat'ed source replica of that tract *)
+Theorem packed_pieces_come_from_statted_sources :
+  forall fx setup evs, fx6 fx = true -> fx13 fx = true -> fx14 fx = true ->
+    forallb ev_setup2 setup = true -> forallb ev_run evs = true ->
+    gens_run fx (run_state_fx fx init_state setup) evs = true ->
+    src_run fx (run_state_fx fx init_state setup) evs.
+Proof. exact src_run_reachable. Qed.
+Print Assumptions packed_pieces_come_from_statted_sources.
+
+(* non-vacuity: schedule f14 meets all three schedule hypotheses, ends with 6 applied commits and 10 acknowledged writes, and each of the 6 commits has an acknowledged write of its tract that had started before it *)
+Example racing_write_example :
+  forallb ev_setup2 (firstn 25 w_f14) = true /\ forallb ev_run (skipn 25 w_f14) = true /\
+  gens_run all_fix (run_state_fx all_fix init_state (firstn 25 w_f14)) (skipn 25 w_f14) = true /\
+  length (filter (fun '(tk, term, packed, nv, sv, started) =>
+            existsb (fun '(tk', w) => Cluster.Model.tk_eqb tk tk' && wid_in started (Cluster.Model.w_id w))
+                    (s_acked (run_state_fx all_fix init_state w_f14)))
+          (s_commits (run_state_fx all_fix init_state w_f14))) = 6%nat.
+Proof. vm_compute. repeat split; reflexivity. Qed.
